@@ -23,7 +23,7 @@ fn obs(m: &BytesMut, parts_cur: usize, pinned: usize) {
         _ => (0, 0),
     };
     println!(
-        "rs A={} off={} len={} cap={} allocs={} live={} parts={} pinned={}",
+        "rs A={} off={} len={} cap={} allocs={} live={} parts={} pinned={} ctl={}",
         a,
         off,
         m.len(),
@@ -31,7 +31,8 @@ fn obs(m: &BytesMut, parts_cur: usize, pinned: usize) {
         ledger::A1_ALLOCS.load(Ordering::SeqCst),
         ledger::A1_TRACKED_BYTES.load(Ordering::SeqCst),
         parts_cur,
-        pinned
+        pinned,
+        ledger::CTL_TRACKED_LIVE.load(Ordering::SeqCst)
     );
 }
 
